@@ -111,6 +111,7 @@ type HarnessRun struct {
 	snap      *Exec
 	stubFns   map[string]*ssa.Function
 	snapTried bool
+	tainted   bool
 	startWit  map[string]*big.Int
 	lastFull  bool
 	leafCache map[int]map[string]bool
@@ -476,6 +477,9 @@ func (r *HarnessRun) branch(e *Exec, c *Term) bool {
 	} else {
 		res := r.query([]*Term{c}, true, "branch")
 		feasT = res.Status != "unsat"
+		if res.Status != "unsat" && res.Status != "sat" {
+			r.tainted = true
+		}
 		modelT = r.fullModel(res, r.lastFull)
 	}
 	if wok && !wv {
@@ -486,6 +490,9 @@ func (r *HarnessRun) branch(e *Exec, c *Term) bool {
 	} else {
 		res := r.query([]*Term{nc}, true, "branch")
 		feasF = res.Status != "unsat"
+		if res.Status != "unsat" && res.Status != "sat" {
+			r.tainted = true
+		}
 		modelF = r.fullModel(res, r.lastFull)
 	}
 	if !feasT && !feasF {
@@ -671,6 +678,11 @@ func (r *HarnessRun) addFinding(kind, label, pos string, model map[string]*big.I
 				ufDep = true
 			}
 		}
+	}
+	if r.tainted {
+		// the feasibility of this path was not established (solver unknown at a branch)
+		r.incon = append(r.incon, fmt.Sprintf("%s %q at %s fails on a path whose feasibility is unknown (branch query undecided)", kind, label, pos))
+		return
 	}
 	nf := &Finding{Kind: kind, Label: label, Pos: pos, Model: modelStrings(model), Lens: lens,
 		Path: append([]int{}, r.decisions...), Harness: r.Name, UFDep: ufDep}
@@ -966,6 +978,7 @@ func (r *HarnessRun) runAll(workers int) {
 
 func (r *HarnessRun) runPath(prefix []int) {
 	r.prefix = prefix
+	r.tainted = false
 	r.pos = 0
 	r.decisions = nil
 	r.pc = nil
